@@ -52,7 +52,7 @@ func init() {
 
 func Check(c *Case) kit.Result {
 	f, ok := table[c.T]
-	if !ok || c.C < 1 || c.Kr < 0 || c.A < 0 || c.A > c.B || c.B > c.Kr || c.C*c.Kr > 1<<20 || len(c.Srcs) > 8 {
+	if !ok || c.C < 1 || c.Kr < 0 || c.A < 0 || c.A > c.B || c.B > c.Kr || c.C*c.Kr > 1<<21 || len(c.Srcs) > 8 {
 		return kit.Result{}
 	}
 	for _, s := range c.Srcs {
